@@ -82,7 +82,7 @@ FreshBlockOK(t, n, p, size, amod) ==
   /\ G("C01", "DisjointFromAllocatorBookkeeping", rid \in DOMAIN mapped => ~Overlap(off, size, mapped[rid].hdr, mapped[rid].hdrlen))
   /\ G("C01", "AlignedToRequestRoundedUpToPowerOfTwo", amod % AlignOf(Len1(n)) = 0)
   /\ G("C03", "RequestedBytesUnpoisoned",
-       (cfg.poison = 1 /\ cfg.trackbytes = 1) => \A i \in off..(off + Len1(n) - 1) : i \in unp[rid])
+       (cfg.poison = 1 /\ cfg.trackbytes = 1 /\ rid \in DOMAIN unp) => \A i \in off..(off + Len1(n) - 1) : i \in unp[rid])
 
 AcctOf(r) == IF r \in DOMAIN acct THEN acct[r] ELSE 0
 GaveAcct(c) == IF c.gave = {} THEN 0 ELSE AcctOf(CHOOSE r \in c.gave : TRUE)
@@ -114,8 +114,11 @@ RetAccept(ev) ==
               /\ G("C02", "InPlaceOnlyIfItFits", c.n <= c.usable)
               /\ G("C02", "PrefixPreserved", ev.prefix_ok = 1)
               /\ G("C01", "ReportedSizeStable", ev.size = c.usable)
+              \* what C01 says of every pointer realloc returns holds for one that stayed in place, too
+              /\ G("C01", "ReportedSizeAtLeastRequested", ev.size >= Len1(c.n))
+              /\ G("C01", "InsideMemoryObtainedFromThePolicy", Inside(ev.p[1], ev.p[2], Len1(c.n)))
               /\ G("C03", "RequestedBytesUnpoisoned",
-                   (cfg.poison = 1 /\ cfg.trackbytes = 1) => \A i \in ev.p[2]..(ev.p[2] + c.n - 1) : i \in unp[ev.p[1]])
+                   (cfg.poison = 1 /\ cfg.trackbytes = 1 /\ ev.p[1] \in DOMAIN unp) => \A i \in ev.p[2]..(ev.p[2] + c.n - 1) : i \in unp[ev.p[1]])
             ELSE                      \* moved
               /\ G("C02", "PrefixPreserved", ev.prefix_ok = 1)
               /\ FreshBlockOK(ev.t, c.n, ev.p, ev.size, ev.amod)
@@ -247,7 +250,7 @@ TraceNext ==
   \/ /\ l <= NLines
      /\ LET ev == TraceLog[l] IN
         IF ev.e = "Reset" THEN ResetTo(ev) /\ l' = l + 1 /\ nchk' = nchk
-        ELSE IF Accepts(ev)
+        ELSE IF Judged(Accepts(ev))
         THEN Apply(ev) /\ l' = l + 1 /\ nchk' = nchk + 1
         ELSE ReportReject(l) /\ l' = NextResetFrom(l + 1) /\ UNCHANGED <<svars, nchk>>
   \/ /\ l = NLines + 1 /\ ReportDone(nchk) /\ l' = l + 1 /\ UNCHANGED <<svars, nchk>>
